@@ -25,6 +25,7 @@ fn step(id: usize, outs: Vec<String>, nexp: usize, exp: Vec<String>, depmode: u8
         hide_success: false,
         removed: false,
         generator: false,
+        touches: None,
     }
 }
 
@@ -174,6 +175,40 @@ pub fn gen_bigshape(seed: u64) -> Scenario {
             builddir: None,
             manifest: "build.ninja".into(),
         },
+        variants: vec![],
+        ops,
+    }
+}
+
+pub const C07BIG_POINTS: [usize; 10] = [1, 100, 9999, 30000, 32768, 32769, 32770, 33000, 36000, 36014];
+
+/// A build record larger than any path record (12 000 discovered deps = 36 015 bytes),
+/// torn at byte offsets around 32 KiB; then two fault-free invocations.
+pub fn gen_c07big(seed: u64) -> Scenario {
+    let n = 12000usize;
+    let hs: Vec<String> = (0..n).map(|k| format!("bh/h{}", k)).collect();
+    let mut srcs = vec![src("main.c".into(), hs.clone())];
+    for h in hs {
+        srcs.push(src(h, vec![]));
+    }
+    let steps = vec![step(0, vec!["main.o".into()], 1, vec!["main.c".into()], 1), step(1, vec!["final".into()], 1, vec!["main.o".into()], 0)];
+    let mut first = InvokeSpec::plain(0);
+    first.policy = 4;
+    // log writes of the first invocation: signature (2), path of the output (1), one path per
+    // dependency (12 000), then the build record
+    first.faults.crash_db_write = Some(2 + 1 + n + 1);
+    first.faults.crash_db_bytes = C07BIG_POINTS[(seed as usize) % C07BIG_POINTS.len()];
+    first.faults.db_err = (seed as usize / C07BIG_POINTS.len()) % 2 == 1;
+    let mut ops = vec![Op::Invoke(first)];
+    for i in 1..4 {
+        let mut s = InvokeSpec::plain(i);
+        s.policy = 4;
+        ops.push(Op::Invoke(s));
+    }
+    Scenario {
+        seed,
+        profile: "C07big".into(),
+        project: Project { srcs, steps, pools: vec![], defaults: vec![], order: vec![0, 1], spell: 0, builddir: None, manifest: "build.ninja".into() },
         variants: vec![],
         ops,
     }
